@@ -55,6 +55,8 @@ def digest(lib):
         h.update(repr((str(g), None if c is None else (repr(c.T_ref), repr(c.ND_H_ref), repr(c.ND_S_ref),
                  sorted((repr(float(t)), repr(float(v))) for t, v in (c.ND_Cp_data or {}).items()), repr(c.get_range())))).encode())
     h.update(repr(sorted((str(k), [(float(a), str(b)) for a, b in v]) for k, v in lib.scheme.remaps.items())).encode())
+    uq = lib.uq_contents
+    h.update(repr((bool(uq), len(uq['descriptors']) if uq else 0)).encode())
     return h.hexdigest()[:16]
 def res(f):
     try:
@@ -66,14 +68,19 @@ with contextlib.redirect_stdout(buf):
     import warnings; warnings.simplefilter('ignore')
     import pgradd.ThermoChem
     from pgradd.GroupAdd.Library import GroupLibrary
+    def one(s):
+        if s.startswith('~'):        # a new, empty library with that library's scheme
+            from pgradd.GroupAdd.Scheme import GroupAdditivityScheme
+            return GroupLibrary(GroupAdditivityScheme.Load(s[1:]))
+        return GroupLibrary.Load(paths.get(s, s))
     def load(srcs):
-        lib = GroupLibrary.Load(paths.get(srcs[0], srcs[0]))
+        lib = one(srcs[0])
         ow = False
         for s in srcs[1:]:
             if s == '!':
                 ow = True
                 continue
-            lib.Update(GroupLibrary.Load(paths.get(s, s)), overwrite=ow)
+            lib.Update(one(s), overwrite=ow)
             ow = False
         return lib
     kind = key[0]
@@ -120,6 +127,8 @@ def digest(lib):
             sorted((repr(float(t)), repr(float(v))) for t, v in (c.ND_Cp_data or {}).items()),
             repr(c.get_range())))).encode())
     h.update(repr(sorted((str(k), [(float(a), str(b)) for a, b in v]) for k, v in lib.scheme.remaps.items())).encode())
+    uq = lib.uq_contents
+    h.update(repr((bool(uq), len(uq['descriptors']) if uq else 0)).encode())
     return h.hexdigest()[:16]
 
 
@@ -145,7 +154,15 @@ class World(object):
         op = ev['op']
         before = {h: digest(l) for h, l in self.libs.items()}
         readonly = op in ('decompose', 'estimate', 'eval', 'evalgroup')
-        if op == 'load':
+        if op == 'load' and ev['L'].startswith('~'):
+            from pgradd.GroupAdd.Scheme import GroupAdditivityScheme
+            kind, lib, _ = call(lambda: GroupLibrary(GroupAdditivityScheme.Load(ev['L'][1:])))
+            if kind == 'value':
+                self.libs[ev['h']] = lib
+                out = 'value:' + repr(digest(lib))
+            else:
+                out = res(kind, lib)
+        elif op == 'load':
             kind, lib, _ = call(GroupLibrary.Load, self.paths.get(ev['L'], ev['L']))
             if kind == 'value':
                 self.libs[ev['h']] = lib
@@ -263,6 +280,14 @@ def systematic(libs):
                 h += [{'op': 'decompose', 'h': 1, 'm': m}, {'op': 'estimate', 'h': 1, 'd': k + 1},
                       {'op': 'eval', 'e': k + 1, 'p': 'H', 't': 1, 'sel': False}]
             hs.append(h)
+    # a new, empty library made after another one received uncertainty data by a merge is still empty
+    if 'GRWSurface2018' in libs:
+        hs.append([{'op': 'load', 'h': 1, 'L': '~GRWSurface2018'}, {'op': 'load', 'h': 2, 'L': 'GRWSurface2018'},
+                   {'op': 'update', 'h': 1, 'h2': 2, 'ow': False},
+                   {'op': 'load', 'h': 3, 'L': '~GRWSurface2018'},
+                   {'op': 'evalgroup', 'h': 1, 'g': 'C(C)(H)3', 'p': 'H', 't': 1},
+                   {'op': 'load', 'h': 2, 'L': '~BensonGA'},
+                   {'op': 'update', 'h': 2, 'h2': 1, 'ow': False}])
     # one species written with its atoms in different orders, decomposed by one library object
     if 'BensonGA' in libs:
         for order in (['CCO', 'OCC', 'C(C)O'], ['C(C)O', 'CCO', 'OCC']):
